@@ -1,0 +1,18 @@
+//go:build verif
+
+package converter
+
+import "net/http"
+
+/*
+Verification hook (only compiled with build tag 'verif'): yield points of the request handlers.
+A verification harness can install VerifYield to pause a request at a named point; the response writer
+identifies the request.
+*/
+var VerifYield func(w http.ResponseWriter, point string)
+
+func verifYield(w http.ResponseWriter, point string) {
+	if f := VerifYield; f != nil {
+		f(w, point)
+	}
+}
